@@ -649,6 +649,17 @@ fn spawn_worker(ctx: &Ctx, shard: usize, start: u64, count: u64, stall: Duration
 }
 
 pub fn run(ctx: &Ctx) -> (Report, String) {
+    if ctx.miri() {
+        // no subprocesses under the interpreter: run a small slice in-process
+        let reps = crate::util::par_shards(16, 1, |s| {
+            let mut rep = Report::new();
+            for i in 0..12 {
+                crate::mon::guarded(&mut rep, || crate::mon::coords("C01", ctx, s, i), |rep| case(ctx, s, i, rep));
+            }
+            rep
+        });
+        return (Report::merge_all(reps), rule());
+    }
     // shards are small worker processes; a crash loses at most one shard's counters
     let shards: usize = if ctx.tier == Tier::Quick { 64 } else { 640 };
     let per_shard: u64 = ctx.n(3000, 12000);
